@@ -17,7 +17,7 @@ AddOp(t) == SOp("AddCmd", 0, t)
 Eff(s, e) ==
   CASE e.a \in {"PreAdd", "AddElsewhere"} -> [s EXCEPT !.db = Apply(s.db, AddOp(e.t))]
     [] e.a = "Start"     -> [s EXCEPT !.upper = Res(s.db, SOp("NextCmdSeq", 0, <<>>)).n]
-    [] e.a = "AddHere"   -> [s EXCEPT !.db = Apply(s.db, AddOp(e.t)),
+    [] e.a = "AddHere"   -> [s EXCEPT !.db = Apply(s.db, AddOp(e.t)), !.stale = s.stale \/ s.live,
                                       !.session = Append(s.session, [n |-> Res(s.db, AddOp(e.t)).n, t |-> e.t])]
     [] e.a = "DelInDb"   -> [s EXCEPT !.db = Apply(s.db, SOp("DelCmd", e.s, <<>>)),
                                       !.stale = s.stale \/ (s.live /\ e.s < s.upper /\ \E c \in s.db.cmds : c.seq = e.s)]
